@@ -84,9 +84,12 @@ def tasks(tier):
     b = META["bounds"][tier]
     ts = [("fifo", "AsyncFIFO", w, d) for w in b["widths"] for d in b["async"]]
     ts += [("fifo", "AsyncFIFOBuffered", w, d) for w in b["widths"] for d in b["buffered"]]
-    ts += [("live", "AsyncFIFO", 1, d, tier) for d in b["async"] if d and (tier == "thorough" or d == 2)]
+    # k-step cross-check of the liveness composition: one task per (depth, sequence) so that they run in parallel
+    for d in b["async"]:
+        if d and d <= 4 and (tier == "thorough" or d == 2):
+            ts += [("live", "AsyncFIFO", 1, d, tier, seq) for seq in LIVE_SEQS[tier]]
     if tier == "thorough":
-        ts += [("live", "AsyncFIFOBuffered", 1, 2, tier)]
+        ts += [("live", "AsyncFIFOBuffered", 1, 2, tier, "rr")]
     ts += [("ctor", v, e) for v in ("AsyncFIFO", "AsyncFIFOBuffered") for e in (False, True)]
     ts += [("elaborates",), ("gray", 5 if tier == "quick" else 8)]
     return ts
@@ -345,13 +348,13 @@ def check_fifo(variant, width, depth, weak=False, canary_view=False):
 LIVE_SEQS = {"quick": ["rr"], "thorough": ["rr", "rwr", "bb", "br", "rb", "wrwr", "wbwb"]}
 
 
-def check_live(variant, width, depth, tier="quick"):
+def check_live(variant, width, depth, tier="quick", only=None):
     name = f"live:{variant}(w={width},d={depth})"
     fifo, d = _build(variant, width, depth)
     mdl = Model(variant, fifo, d)
     parts = []
     extra_r = 1 if variant == "AsyncFIFOBuffered" else 0
-    for seq in LIVE_SEQS[tier]:
+    for seq in ([only] if only else LIVE_SEQS[tier]):
         seq = seq + "r" * extra_r
 
         def body(path, seq=seq):
@@ -488,7 +491,7 @@ def run_task(task):
     if k == "fifo":
         return check_fifo(task[1], task[2], task[3])
     if k == "live":
-        return check_live(task[1], task[2], task[3], task[4])
+        return check_live(task[1], task[2], task[3], task[4], task[5] if len(task) > 5 else None)
     if k == "ctor":
         return check_ctor(task[1], task[2])
     if k == "elaborates":
